@@ -58,6 +58,9 @@ def generate(rng, run, tier):
         cfg["pass_stream"] = rng.random() < 0.6
     if entry == "grouped_file":
         cfg["groups"] = c01.split_groups(rng, len(stmts))
+        if rng.random() < 0.3:
+            # an empty graph / sink among the inputs (first, in the middle or last): the input as a whole is non-empty
+            cfg["groups"].insert(rng.randint(0, len(cfg["groups"])), 0)
     ops = [["stmt", *T.to_json(st)] for st in stmts]
     if rng.random() < 0.25:
         # namespace declarations travel through the same flow as the statements
